@@ -139,7 +139,12 @@ def explore_stream(acc, framing, side, names):
         if s[1] != fresh:
             acc.add('nontrivial', (cfg, s[0], hash(s[1]) & 0xFFFFFFFF, len(s[2])))
 
-    st, path = states.bfs_snapshot([init], events, step, on_edge=on_edge, on_state=on_state)
+    st, path = states.bfs_snapshot([init], events, step, on_edge=on_edge, on_state=on_state, max_states=50 * (n + 1) + 200)
+    if not st.closed:
+        # cut sets no longer lead to common states (the receiver carries something that differs with every call, e.g. a
+        # counter): fall back to enumerating the chunkings themselves -- every one with at most two cuts
+        acc.cap('state-merging-defeated:' + cfg)
+        explore_cuts(acc, framing, side, frames, list(names), 2, True)
     acc.inc('states', st.states)
     acc.inc('transitions', st.transitions)
     acc.inc('traces_validated_against_impl', st.transitions)
@@ -182,19 +187,22 @@ def explore_long(acc, framing, side, k, max_cuts, dense):
     """Streams of maximum-size frames (longer than any single frame, so that anything the receiver does 'because the
     buffer is too long' shows): every chunking with at most max_cuts cuts, cut positions from cut_menu (every position
     when dense).  Deviation-bounded: 0 cuts, then 1, then 2."""
-    frames = long_frames(framing, side, k)
+    explore_cuts(acc, framing, side, long_frames(framing, side, k), ['max%s#%d' % (side, k)], max_cuts, dense, k)
+
+
+def explore_cuts(acc, framing, side, frames, names, max_cuts, dense, k=None):
+    """every chunking of the stream with at most max_cuts cuts -- no reliance on two cut sets reaching the same state"""
     S = b''.join(frames)
     n = len(S)
     bounds = [0]
     for f in frames:
         bounds.append(bounds[-1] + len(f))
-    names = ['max%s#%d' % (side, k)]
-    cfg = '%s/%s/%s' % (framing, side, names[0])
+    cfg = '%s/%s/%s' % (framing, side, '+'.join(names))
     E, why = baseline(framing, side, frames)
     if E is None:
         acc.inc('streams_excluded')
         acc.add('excluded', cfg + ': ' + why)
-        acc.violation('C06/%s/%s/lost/one-frame-per-read' % (framing, side), dict(framing=framing, side=side, stream=names, chunks=[len(f) for f in frames], long=k),
+        acc.violation('C06/%s/%s/lost/one-frame-per-read' % (framing, side), dict(framing=framing, side=side, stream=list(names), chunks=[len(f) for f in frames], **({'long': k} if k else {})),
                       'a stream of valid frames delivered one frame per read: ' + why, cfg)
         return
     acc.inc('streams')
@@ -210,9 +218,9 @@ def explore_long(acc, framing, side, k, max_cuts, dense):
         if exc is not None or final != E:
             kind = ('exception:' + type(exc).__name__) if exc is not None else ('lost' if _subseq(final, E) else 'wrong-delivery')
             sig = 'C06/%s/%s/%s/%s' % (framing, side, kind, cut_classes(framing, bounds, ch))
-            acc.violation(sig, dict(framing=framing, side=side, stream=names, chunks=ch, long=k),
-                          '%d of %d messages delivered from %d maximum-size frames cut as %s%s'
-                          % (len(final), len(E), k, ch, (' (%s escaped)' % type(exc).__name__) if exc else ''), cfg)
+            acc.violation(sig, dict(framing=framing, side=side, stream=list(names), chunks=ch, **({'long': k} if k else {})),
+                          '%d of %d messages delivered from %d frames cut as %s%s'
+                          % (len(final), len(E), len(frames), ch, (' (%s escaped)' % type(exc).__name__) if exc else ''), cfg)
         acc.add('terminal_outcomes', (cfg, len(final), final == E))
         if cuts == max_cuts:
             return
@@ -224,7 +232,7 @@ def explore_long(acc, framing, side, k, max_cuts, dense):
             acc.inc('transitions'); acc.inc('evaluations'); acc.inc('traces_validated_against_impl')
             if exc is not None:
                 sig = 'C06/%s/%s/exception:%s/%s' % (framing, side, type(exc).__name__, cut_classes(framing, bounds, chunks + [c - pos]))
-                acc.violation(sig, dict(framing=framing, side=side, stream=names, chunks=chunks + [c - pos], long=k),
+                acc.violation(sig, dict(framing=framing, side=side, stream=list(names), chunks=chunks + [c - pos], **({'long': k} if k else {})),
                               '%s escaped on an incomplete frame' % type(exc).__name__, cfg)
                 continue
             snap = framers.snapshot(fr)
